@@ -122,6 +122,74 @@ fn build_chain(chain: &[Cons], exit: Exit, count: i64) -> Option<BlockStmt> {
     Some(prog)
 }
 
+/// The same chains with every construct in VALUE position: the innermost body ends in a value (after its exit action),
+/// every enclosing if / else / else-if branch, block statement and function body has the enclosed construct as its last
+/// statement, so the value travels outwards through all of them and is printed at every level; a loop assigns the value
+/// of its body (`w = als ja { … }`, an exit taken from there leaves an assignment half done) and yields the variable.
+fn build_chain_value(chain: &[Cons], exit: Exit, count: i64) -> Option<BlockStmt> {
+    // admissibility as in build_chain
+    build_chain(chain, exit, count)?;
+    let mut innermost_loop: Option<usize> = None;
+    for (i, c) in chain.iter().enumerate() {
+        match c {
+            Cons::Function => innermost_loop = None,
+            Cons::While => innermost_loop = Some(i),
+            _ => {}
+        }
+    }
+    let counter = innermost_loop.map(|i| format!("i{i}"));
+    let cond_second = counter.as_ref().map(|c| infix(ident(c), Operator::Eq, int(2)));
+    let mut body: BlockStmt = vec![trace("kern")];
+    match exit {
+        Exit::None => {}
+        Exit::Stop => body.push(Stmt::Break),
+        Exit::Volgende => body.push(Stmt::Continue),
+        Exit::Antwoord => body.push(Stmt::Return(int(5))),
+        Exit::StopSecond => body.push(es(iff(cond_second.clone().unwrap(), vec![trace("stop!"), Stmt::Break], None))),
+        Exit::VolgendeSecond => body.push(es(iff(cond_second.clone().unwrap(), vec![trace("volgende!"), Stmt::Continue], None))),
+        Exit::AntwoordSecond => body.push(es(iff(cond_second.clone().unwrap(), vec![trace("antwoord!"), Stmt::Return(int(6))], None))),
+    }
+    // the value: depends on the innermost counter when there is one
+    body.push(es(match &counter {
+        Some(c) => infix(int(40), Operator::Add, ident(c)),
+        None => int(42),
+    }));
+    for (i, c) in chain.iter().enumerate().rev() {
+        let inn = format!("in{i}");
+        let mut inner: BlockStmt = vec![trace(&inn)];
+        inner.extend(body);
+        body = match c {
+            Cons::IfTrue => vec![es(iff(boolean(true), inner, None))],
+            Cons::IfFalseElse => vec![es(iff(boolean(false), vec![trace("fout"), es(int(-1))], Some(inner)))],
+            Cons::ElseIfSecond => vec![es(iff(boolean(false), vec![es(int(-1))], Some(vec![es(iff(boolean(true), inner, Some(vec![es(int(-2))])))])))],
+            Cons::Block => vec![Stmt::Block(inner)],
+            Cons::While => {
+                let cn = format!("i{i}");
+                let wn = format!("w{i}");
+                let b = vec![
+                    es(assign(ident(&cn), infix(ident(&cn), Operator::Add, int(1)))),
+                    es(assign(ident(&wn), iff(boolean(true), inner, None))),
+                    trace_v("ronde", ident(&wn)),
+                ];
+                vec![let_(&cn, int(0)), let_(&wn, int(-3)), es(whil(infix(ident(&cn), Operator::Lt, int(count)), b)), es(ident(&wn))]
+            }
+            Cons::Function => {
+                let fname = format!("f{i}");
+                vec![es(Expr::Function { name: fname.clone(), parameters: vec![], body: inner }), es(calln(&fname, vec![]))]
+            }
+        };
+        // the value as seen at this level
+        let seen = format!("v{i}");
+        let carried = iff(boolean(true), body, None);
+        body = vec![let_(&seen, carried), trace_v(&format!("waarde{i}"), calln("string", vec![calln("type", vec![ident(&seen)])])), es(ident(&seen))];
+    }
+    let mut prog = vec![trace("begin")];
+    prog.push(let_("uitkomst", iff(boolean(true), body, None)));
+    prog.push(trace_v("einde", calln("type", vec![ident("uitkomst")])));
+    prog.push(es(ident("uitkomst")));
+    Some(prog)
+}
+
 fn template_violation(r: &mut Report, driver: &str, prog: &BlockStmt) {
     let out = diff_program(prog);
     r.eval();
@@ -166,6 +234,13 @@ fn enumerate_templates(r: &mut Report, shard: usize, shards: usize, max_depth: u
                             r.sample(json!({"template": format!("{chain:?} exit={exit:?} count={count}"), "src": crate::printer::print_canonical(&p)}));
                         }
                         template_violation(r, "templates", &p);
+                    }
+                    if let Some(p) = build_chain_value(&chain, exit, *count) {
+                        r.count("templates-as-values");
+                        if idx % 9973 == 2 {
+                            r.sample(json!({"template-as-value": format!("{chain:?} exit={exit:?} count={count}"), "src": crate::printer::print_canonical(&p)}));
+                        }
+                        template_violation(r, "templates-as-values", &p);
                     }
                 }
             }
@@ -256,7 +331,89 @@ fn residue_family(r: &mut Report) {
     r.sample(json!({"residue": residue_program(LOOP_BODIES[2].1, 70_000, false)}));
 }
 
+// ---------------------------------------------------------------------------------------
+// (4) the value of a loop (whatever the language takes it to be, U8) does not depend on WHERE in a statement the
+//     iteration was left: `stop` / `volgende` taken while operands of a half-evaluated expression are pending must leave
+//     the loop with the same value as the same exit taken as a statement of its own just before that expression.
+
+const EXIT_POSITIONS: [(&str, &str); 12] = [
+    ("operand", "g = 100 + X"),
+    ("left-operand", "g = X + 100"),
+    ("nested-operand", "g = 100 + (2 * (3 - X))"),
+    ("argument", "g = tel(100, X)"),
+    ("first-argument", "g = tel(X, 100)"),
+    ("builtin-argument", "g = lengte(string(100 + X))"),
+    ("array-element", "g = lengte([100, 200, X])"),
+    ("index", "g = rij[X - 2]"),
+    ("assigned-element-value", "rij[0] = X"),
+    ("assigned-element-index", "rij[X - 2] = 100"),
+    ("condition-operand", "als 100 + X > 0 { g = 1 }"),
+    ("declaration", "stel q = 100 + X"),
+];
+
+fn exit_position_programs(stmt: &str, exit: &str, k: i64, tail: &str, in_function: bool) -> (String, String) {
+    let make = |body: String| {
+        let prelude = "functie tel(x, y) { x + y } stel rij = [0, 0]";
+        let core = format!("stel g = 0; stel i = 0; stel w = zolang i < 5 {{ i = i + 1; {body}{tail} }}; print(\"{{}} {{}} {{}}\", i, g, type(w)); [w]");
+        if in_function {
+            format!("{prelude} functie werk() {{ {core} }} werk()")
+        } else {
+            format!("{prelude} {core}")
+        }
+    };
+    let inside = make(stmt.replace('X', &format!("als i == {k} {{ {exit} }} anders {{ 2 }}")));
+    let before = make(format!("als i == {k} {{ {exit} }}; {}", stmt.replace('X', "2")));
+    (inside, before)
+}
+
+fn exit_position_family(r: &mut Report) {
+    let cfg = RunCfg { budget: 2_000_000, audit_heap: true };
+    for (name, stmt) in EXIT_POSITIONS {
+        for exit in ["stop", "volgende"] {
+            for k in [1i64, 3, 5] {
+                // the body ends in a value, in a declaration, or right after the statement
+                for tail in ["; i * 7", "; stel t = i", ""] {
+                    for in_function in [false, true] {
+                        let (inside, before) = exit_position_programs(stmt, exit, k, tail, in_function);
+                        let oa = run_eval(&inside, &cfg);
+                        let ob = run_eval(&before, &cfg);
+                        r.eval();
+                        r.count("exit-position-pairs");
+                        r.nontrivial(&inside);
+                        if oa.outcome == Outcome::Budget || ob.outcome == Outcome::Budget {
+                            r.count("discard:budget (vm)");
+                            continue;
+                        }
+                        if !oa.same_as(&ob) || !oa.events.is_empty() || oa.outcome.is_crash() {
+                            r.violation(Violation {
+                                property: "C11".into(),
+                                driver: "exit-position".into(),
+                                class: format!("loop-value-depends-on-exit-position:{name}"),
+                                case: json!({"kind": "exit-position", "position": name, "src_inside": inside, "src_before": before}),
+                                expected: ob.render(),
+                                observed: oa.render(),
+                            });
+                        }
+                    }
+                }
+            }
+        }
+    }
+    r.sample(json!({"exit-position": exit_position_programs(EXIT_POSITIONS[3].1, "stop", 3, "; i * 7", false).0}));
+}
+
 pub fn replay(case: &Value) -> Option<Violation> {
+    if case.get("kind").and_then(|k| k.as_str()) == Some("exit-position") {
+        let a = case.get("src_inside")?.as_str()?;
+        let b = case.get("src_before")?.as_str()?;
+        let cfg = RunCfg { budget: 2_000_000, audit_heap: true };
+        let oa = run_eval(a, &cfg);
+        let ob = run_eval(b, &cfg);
+        if !oa.same_as(&ob) || !oa.events.is_empty() || oa.outcome.is_crash() {
+            return Some(Violation { property: "C11".into(), driver: "replay".into(), class: format!("loop-value-depends-on-exit-position:{}", case.get("position").and_then(|s| s.as_str()).unwrap_or("?")), case: case.clone(), expected: ob.render(), observed: oa.render() });
+        }
+        return None;
+    }
     if case.get("kind").and_then(|k| k.as_str()) == Some("residue") {
         let a = case.get("src_small")?.as_str()?;
         let b = case.get("src_large")?.as_str()?;
@@ -279,6 +436,8 @@ pub fn run_check(ctx: &Ctx) -> Report {
          {none, stop, stop on the 2nd round, volgende, volgende on the 2nd round, antwoord, antwoord on the 2nd round} in the innermost body, loop counts {0,1,2,17}, every level instrumented with print trace points, \
          against the reference interpreter; (2) random programs of the `control` profile against the reference interpreter; \
          (3) residue: 27 loop shapes (every position in which operands are pending when the iteration is left) x {top level, inside a function} x n in {1, 2, 70 000, 100 000, 200 000} followed by a probe (calls with arguments and locals, recursion, globals) whose observation must not depend on n. \
+         (4) exit-position independence: 12 positions in which operands are pending x {stop, volgende} x iteration {1, 3, last} x 3 body endings x {top level, function}: the loop, used as a value, \
+         must leave the same observation as with the same exit taken as a statement just before (implementation against itself; what the value of a loop is stays open, U8). \
          non-trivial = the executed path takes an early exit from nesting depth >=2 or a loop runs >=2 rounds with a volgende; all residue runs count; distinct by source text",
     );
     rep.assumptions.push("U8: the value of a zolang expression is not fixed; it is only bound to variables that are never read".into());
@@ -293,6 +452,7 @@ pub fn run_check(ctx: &Ctx) -> Report {
         run_diff_tapes(r, &cfg, &nontrivial, &known);
     });
     residue_family(&mut rep);
+    exit_position_family(&mut rep);
     rep.extra.insert("exhaustive_parts".into(), json!([format!("all construct chains up to depth {depth} x 7 exit actions x loop counts")]));
     rep
 }
